@@ -288,10 +288,11 @@ def nameShift (lens : Option (List Nat)) (namePos : NamePos) (fs : Rat) (x : Lis
     | .above => (clamp (- lmin (tab x.length fun i => x.getD i 0 - lenAt i * fs / 2)), fs)
     | _ => (clamp (- lmin (tab x.length fun i => x.getD i 0 - lenAt i * fs / 2)), 0)   -- 'below', any other string
 
-/-- `lengths * font_size` cannot be broadcast against the abscissas -/
+/-- `lengths * font_size` cannot be broadcast against the abscissas (one node with several names is broadcast the
+    other way round: the code returns) -/
 def lensMismatch (lens : Option (List Nat)) (n : Nat) : Bool :=
   match lens with
-  | some lens => lens.length != n && lens.length != 1
+  | some lens => lens.length != n && lens.length != 1 && n != 1      -- numpy: equal, or either side of length 1
   | none => false
 
 /-- the `# margins` block -/
@@ -584,6 +585,8 @@ structure BigraphArgs where
   edgeColor : Option PyStr := some py!"black"
   width : Option Rat := some 400
   height : Option Rat := some 300
+  /-- when `position_row` and `position_col` are both given: their total number of rows -/
+  posLen : Option Nat := none
   filename : Option PyStr := none
 deriving Repr
 
@@ -627,7 +630,12 @@ def visualizeBigraph (ν : Nums) (a : BigraphArgs) : Except PyErr Drawing := do
   let colorsRow ← getNodeColors ν 0 a.nRow a.labelsRow scoresRow a.probsRow.isSome a.colorRow a.labelColors
   let colorsCol ← getNodeColors ν 1 a.nCol a.labelsCol scoresCol a.probsCol.isSome a.colorCol a.labelColors
   if ¬ truthy a.width ∧ ¬ truthy a.height then throw .valueError
-  if a.nRow + a.nCol = 0 then throw .valueError
+  -- `rescale` on the stacked positions (given, or one per node): `np.max` of an empty array
+  if a.posLen.getD (a.nRow + a.nCol) = 0 then throw .valueError
+  -- `text_length = np.max(np.array([len(str(name)) for name in names]))` of an empty list of names
+  if a.namesRow = some [] ∨ a.namesCol = some [] then throw .valueError
+  -- `position_row[i]` / `position_col[j]` when fewer positions than nodes were given
+  if a.posLen.getD (a.nRow + a.nCol) < a.nRow + a.nCol then throw .indexError
   let edges ← bigraphEdges ν a
   let nodesRow ← nodeLoop ν 0 a.nRow a.probsRow colorsRow
   let nodesCol ← nodeLoop ν 1 a.nCol a.probsCol colorsCol
